@@ -826,7 +826,7 @@ PROPS["C04"] = dict(
 PROPS["C07"] = dict(
     lean_targets=["SJ.Props.C07", "SJ.Audit.C07"],
     configs=dict(quick=["fr"], thorough=["fr", "frap", "d"]),
-    gen_keys=["lexical.", "Lexical"],
+    gen_keys=["lexical.", "Lexical", "LexMath"],
     rule="number literals of the property's quantifier, each into f64 (from_str, from_slice, a two-element array through a chunked "
          "reader, Value::as_f64) and into f32 (str, slice, reader): f64 values sampled across every binary exponent (shortest {:e}, "
          "shortest {}, 17 significant digits; thorough also 15 and 20), every power of two and its neighbours, every power of ten "
@@ -838,13 +838,31 @@ PROPS["C07"] = dict(
          "and fraction digit loops); random 1-40 digit mantissas with exponents in +-400; spellings that steer into lexical's fast, "
          "moderate (extended-precision) and big-integer paths; print -> parse of f64/f32 sampled across every exponent (f64pr/f32pr). "
          "Thorough: all 2^32 f32 bit patterns print -> parse inside the harness (f32all), also in the default build. "
-         "Non-trivial = literal longer than one byte; distinct = distinct lines.",
+         "Limb level (op lm, the crate's own src/lexical compiled into the harness): every function of lexical/math.rs - "
+         "scalar add/sub/mul on all pairs of 15 edge limbs and random limbs; small iadd_impl/isub_impl at every start index of "
+         "0-7-limb vectors of eight kinds (random, all ones, all ones below a random top, zeros below the top, low half zero, "
+         "high half ones, edge limbs, zero top), carries rippling over 20/40 limbs; imul/mul/normalize/leading_zeros/bit_length/"
+         "nonzero on random vectors of 0-19 limbs; ishl_bits by every count 0-63, ishl by multiples of 64 +-1 and random counts "
+         "to 1400, ishl_limbs; hi64 (and u64_to_hi64_1/2) of 1-5 limbs with 0/1/31/32/63 leading zeros, with and without sticky "
+         "bits in the second and in lower limbs, unnormalised inputs; compare/less/greater_equal on equal, one-limb-different and "
+         "random normalised pairs and on unnormalised ones; large iadd_impl (every start, past the end), add, isub (ordered and "
+         "unordered); long_mul, large::imul, karatsuba_mul / karatsuba_uneven_mul / karatsuba_mul_fwd on 64 length pairs around "
+         "KARATSUBA_CUTOFF and 2*CUTOFF (x.len in {1, 2, y/2-1, y/2, y/2+1, y-1, y, y+1}; thorough: up to 160 limbs) x five "
+         "content kinds, low-half-zero and empty operands, the kernel-checked panic witnesses; imul_pow5/imul_pow10 on both "
+         "routes and at the frontier of the route choice; the trait Math over the unmodified sources; bhcomp.rs on limb vectors "
+         "(parse_mantissa, large_atof, small_atof, bhcomp on exact midpoints, perturbed, extended beyond MAX_DIGITS, cut, in three "
+         "integer/fraction splits). Non-trivial = literal longer than one byte (every lm case); distinct = distinct lines.",
     trusted_base=[
         "Lean 4.33 kernel; axioms propext, Classical.choice, Quot.sound only (checked by #print axioms on every listed theorem)",
         "tools/extract.py gen_lexical (regex translator: cached powers, small/large power tables, per-type float constants, and the "
         "shapes of the error/rounding expressions) and the Rust harness + sjdriver correspondence run (differential testing, bit for bit)",
         "hand-written transcription of src/lexical/* and of the float_roundtrip integration of de.rs (Model.Lexical), tied to the crate "
-        "by the correspondence run; limb-level big-integer arithmetic of lexical/math.rs abstracted by Nat",
+        "by the correspondence run; the limb-level big-integer arithmetic of lexical/math.rs is no longer abstracted: Model.LexMath "
+        "transcribes it (64-bit limbs; every function's shape is re-checked by extract.py gen_lexmath each run), the theorems "
+        "c07_limbs_* prove that it refines the Nat-level model, and the crate's own math.rs / bhcomp.rs (compiled into the harness by "
+        "harness/build.rs, once unmodified and once with visibility keywords opened) is run against it op by op",
+        "the limb width: the model is for fast_arithmetic=\"64\" (every 64-bit target; checked against the compiled Limb::BITS by op "
+        "`lm bits`); the 32-bit-limb configuration (hi64 for u32 limbs, large_powers32) is not modelled",
         "IEEE-754 conformance of the hardware multiply/divide/int-to-float cast used by lexical's fast path; rustc's conversion of the "
         "float literals 1.0..1e22; serde's f32/f64 visitors (`as` casts)",
     ],
@@ -882,11 +900,19 @@ PROPS["C07"] = dict(
                "returns the correctly rounded value, including the MAX_DIGITS truncation argument 2^54*5^1075 < 10^768); "
                "c07_correct_partial (f64: de.rs + lexical = convertRoundtrip, i.e. nearest-even of the exact value, sign incl. -0.0, "
                "underflow to +-0, out of range iff the rounding is infinite, exponent-overflow rule - under the explicit per-call "
-               "hypothesis moderate_path_sound and the exclusion of an open finding). The transcription is run bit for bit against "
+               "hypothesis moderate_path_sound and the exclusion of an open finding). The Bigint abstraction is closed: "
+               "c07_limbs_scalar/small/isub/compare/add/long_mul/karatsuba/hi64/pow (every function of lexical/math.rs on limb vectors "
+               "refines +, -, *, <<, comparison, top-64-bits-with-sticky on the numbers denoted, keeps limbs limbs and normalised "
+               "vectors normalised; Karatsuba = schoolbook = product wherever it returns; c07_karatsuba_panics: it does not always "
+               "return - two kernel-checked witnesses replayed on the crate, in code unreachable from serde_json's API), "
+               "c07_limbs_refine_nat (parse_mantissa / large_atof / small_atof / bhcomp on limb vectors = the Nat-level model that "
+               "c07_bhcomp_exact is about) and c07_limbs_total (no panic for -2048 < scaled_exponent < 1024). "
+               "The transcription is run bit for bit against "
                "the crate, and the independent exact-rational oracle is evaluated on the crate's output, on 81k (quick) / 1.4M "
                "(thorough) constructed literals incl. exact midpoints up to 770 digits and all 2^32 f32 patterns print->parse.",
     level_note="Trusted: Lean kernel + 3 standard axioms; extract.py; harness/driver; Model.Lexical transcription validated bit for bit; "
-               "math.rs limb arithmetic abstracted by Nat. PARTIAL: moderate_path_sound is an explicit hypothesis of c07_correct_partial "
+               "math.rs limb arithmetic verified (c07_limbs_*: Model.LexMath refines the Nat-level model; 64-bit limbs only), no longer "
+               "trusted. PARTIAL: moderate_path_sound is an explicit hypothesis of c07_correct_partial "
                "(it is false on the pinned tree: finding C07-moderate-truncated was found while stating it); f32 top-level assembly "
                "and c07_roundtrip not yet stated. Three open findings of the pinned tree (known_findings.json: C07-zero-tail, "
                "C07-f32-negint, C07-moderate-truncated) with validated repairs in docs/C07-fix-*.diff.",
